@@ -126,5 +126,13 @@ CHECKS = {
              "one recorded finding (compiled runner cannot reach other kinds of host callables).",
         design_ref="DESIGN.md §4 C14",
     ),
+    "C17": dict(
+        technique="property-based testing (Hypothesis) against independent models (Python sets, own glob matcher, 32-bit integer CIDR arithmetic, integer tuples, positional splits) + generated evaluation sequences for the filter context",
+        category="exploration",
+        text="Each helper called directly and through CEL (function and method syntax, FUNCTIONS binding) on generated inputs incl. every prefix length for two base networks "
+             "exhaustively; the filter context observed from inside a probe host function and after every step of generated sequences of succeeding / CEL-failing / host-raising evaluations.",
+        note="Same-kind list pairs; host-bits-set networks only assert 'no foreign exception'; dates YYYY/MM/DD or YYYY-MM-DD.",
+        design_ref="DESIGN.md §4 C17",
+    ),
 }
 NOT_APPLICABLE = {}
